@@ -400,7 +400,7 @@ def run_shard(d):
         if i % d["nparts"] != d["part"]:
             continue
         lays = [None]
-        if len(spans) == 2 and spans[0][0] < spans[0][1] and spans[1][0] < spans[1][1] and (spans[0][2], spans[1][2]) in (("i", "i"), ("i", "b"), ("ib", "u"), ("i", "ib"), ("u", "ibu")):
+        if len(spans) == 2 and spans[0][0] <= spans[0][1] and spans[1][0] < spans[1][1] and (spans[0][2], spans[1][2]) in (("i", "i"), ("i", "b"), ("ib", "u"), ("i", "ib"), ("u", "ibu")):
             lays = [None, "same", "diff"]  # the two spans carry layouts (each span within nodes of one layout)
         for lay in lays:
             v, out = run_route(d["route"], shape, spans, lay)
